@@ -1,5 +1,29 @@
-(* C18 — placeholder until the engine theorems are added below. *)
-From WF Require Import model.Base model.EngineBase model.Engine.
-Theorem C18_emit_dead_silent : forall t s, o_dead s = true -> emit t s = (Ok tt, s).
-Proof. intros t s H. unfold emit. now rewrite H. Qed.
-Print Assumptions C18_emit_dead_silent.
+(* C18 — SQL store: record and outbox row commit together or not at all. Property theorems only.
+   Model: coq/model/Sql.v — the statement sequence of sqlstore.Store inside one transaction over a committed database;
+   MySQL is not modelled (the relational meaning of the SELECTs is that of the reference store). *)
+From WF Require Import model.Base model.Routing model.Stores model.Sql proofs.SqlProofs.
+
+(* a failure at ANY position (begin, select, insert/update, event encoding, outbox insert, commit) commits nothing and
+   returns the error *)
+Theorem C18_atomic_failure : forall db r k, (k < 6)%nat -> sql_store db r (Some k) = (db, false).
+Proof. exact sql_store_atomic_fail. Qed.
+Print Assumptions C18_atomic_failure.
+
+(* without failure: the record row is inserted (new run ID) or updated, and exactly one outbox row — the routing of that
+   record — is added, together *)
+Theorem C18_atomic_success : forall db r,
+  sql_store db r None = (mkSqldb (r_upsert (db_recs db) r) (db_outbox db ++ [route (db_noid db) r]) (db_noid db + 1)%N, true).
+Proof. exact sql_store_ok. Qed.
+Print Assumptions C18_atomic_success.
+
+(* hence Store answers as the reference store does, for every committed database, record and failure position *)
+Theorem C18_store_refines : forall db r fail, match fail with Some k => (k < 6)%nat | None => True end ->
+  let (db', ok) := sql_store db r fail in
+  ref_step (db_abs db) (if ok then SStore r else SStoreFail r) = (db_abs db', if ok then ObOk else ObErr).
+Proof. exact sql_store_refines. Qed.
+Print Assumptions C18_store_refines.
+
+(* the List statement binds as many arguments as it has placeholders, for every filter combination, limit and offset *)
+Theorem C18_placeholders : forall w, wh_placeholders w = wh_params w.
+Proof. exact where_placeholders_match. Qed.
+Print Assumptions C18_placeholders.
